@@ -302,13 +302,69 @@ def fam_pairs1(arg):
     return acc.result()
 
 
+def misc_programs():
+    """Small hand-written shapes no generator produces: empty bodies, include statements in every position."""
+    from . import C01  # pylint: disable=import-outside-toplevel
+    out = []
+    for i in range(len(C01.EMPTY_SHAPES)):
+        out.append(('empty:' + C01.EMPTY_SHAPES[i], ast.source(C01.build_empty({'s': i})), C01.build_empty({'s': i})))
+    inc = [
+        ('include-top', "include 'a.bare'\nsystemLog('x')\n"),
+        ('include-system-top', "include <a.bare>\ninclude 'b.bare'\nsystemLog('x')\n"),
+        ('include-in-function', "function ff():\n    include 'a.bare'\n    systemLog('x')\nendfunction\n"),
+        ('include-in-function-in-block', "if true:\n    function ff():\n        include <a.bare>\n        include 'b.bare'\n        return 1\n    endfunction\nendif\n"),
+        ('include-in-loop', "for v in arrayNew(1):\n    include 'a.bare'\nendfor\nwhile false:\n    include <b.bare>\nendwhile\n"),
+        ('include-in-if-chain', "if cc():\n    include 'a.bare'\nelif cc():\n    include 'b.bare'\nelse:\n    include <c.bare>\nendif\n"),
+        ('async-function', "async function ff(a, b...):\n    return a\nendfunction\n"),
+        ('labels-and-jumps', "function ff():\n    jump end\n    mid:\n    jumpif (cc()) mid\n    end:\nendfunction\njump fin\nfin:\n"),
+    ]
+    for name, src in inc:
+        out.append((name, src, None))
+    return out
+
+
+def check_misc(case, acc):
+    name, src, body = misc_programs()[case['i']]
+    c2 = dict(case, name=name, source=src)
+    model = parse_or_violation(src, c2, acc)
+    if model is None:
+        return
+    n = static_check_user_labels(model, c2, acc) if name == 'labels-and-jumps' else static_check(model, c2, acc)
+    acc.nontrivial += 1
+    acc.outcome((name, n))
+    if body is not None:
+        dynamic_check(body, model, c2, acc, 3)
+
+
+def static_check_user_labels(model, case, acc):
+    """Programs with user-written labels: only schema validity is checked (label discipline is the user's own)."""
+    load_impl()
+    from bare_script.model import validate_script  # pylint: disable=import-outside-toplevel,import-error
+    try:
+        validate_script(model)
+    except Exception as exc:  # pylint: disable=broad-exception-caught
+        acc.violation(case, 'schema-valid model', ('raise', type(exc).__name__, str(exc)[:200]), 'validate_script rejects the model returned by parse_script')
+    return 0
+
+
+def fam_misc(arg):
+    acc = Acc('misc')
+    for i in arg:
+        acc.cases += 1
+        check_misc({'i': i}, acc)
+    acc.sample({'programs': [m[0] for m in misc_programs()]})
+    return acc.result()
+
+
 def families(tier):
     load_impl()
     nb = len(pair_bodies())
     nb1 = len(pair1_bodies())
+    nmisc = len(misc_programs())
     be = chains.branch_end_specs()
     return [
         Family('branch_end', fam_branch_end, split(be, 32), 'an if chain (if / if-else / if-elif / if-elif-else) inside a loop (while, for, counter while) where every branch independently ends in nothing / break / continue / return; x 2 scopes x 3 surroundings; static + dynamic (bound 2)', expected=len(be)),
+        Family('misc', fam_misc, [list(range(nmisc))], 'hand-written shapes: loops/ifs with empty and comment-only bodies (static + dynamic), include statements at top level, in functions, in loops and in if chains, an async function, user labels (schema validity)', expected=nmisc),
         chain_family(tier),
         Family('pairs1', fam_pairs1, split(list(range(nb1)), 16), f'every ordered pair of the {nb1} depth-1 bodies (each loop with every guard decoration and with/without a continue leaf) x 5 placements: a loop WITH a continue next to a loop WITHOUT one', expected=nb1 * nb1 * len(PLACEMENTS)),
         Family('pairs', fam_pairs, [(tier, r) for r in split(list(range(nb)), 48)],
@@ -317,7 +373,7 @@ def families(tier):
     ]
 
 
-_CHECKS = {'pairs1': check_pair1, 'chain': check_chain, 'pairs': check_pair, 'branch_end': check_branch_end}
+_CHECKS = {'misc': check_misc, 'pairs1': check_pair1, 'chain': check_chain, 'pairs': check_pair, 'branch_end': check_branch_end}
 
 
 def replay(family, case):
